@@ -70,16 +70,18 @@ def _c13_nontrivial(req, out):
 
 CFG = {
     "level": "proof",
-    "level_text": "Lean 4 theorems over models of the engines: validate_utf8_scalar (with the skip_ascii word loop) returns Ok "
-                  "exactly on the language of the Unicode Table 3-7 automaton (scalar_ok_iff); the AVX2 accept kernel (lane "
-                  "predicate of check_block over c/prev1/prev2/prev3 on the zero-padded input incl. the always-run tail block) "
-                  "accepts exactly that language (avx2_accept_iff), hence the simd engine/dispatcher returns the scalar result "
-                  "(simd_engine_agrees); on rejection the kind is the first violated rule and offset = longest-valid-prefix "
-                  "length + index of the offending continuation byte (error_kind_and_offset_partial, error_offset_partial); the "
-                  "property's 'offset = longest valid prefix' is refuted for InvalidContinuationByte (error_offset_refuted, "
-                  "finding F6, [C3 28]). NOT proved (correspondence + per-request model-vs-spec cross-check only): broadword "
-                  "accept scan = WellFormed (broadword_engine_agrees_partial is conditional on it), line/column = LF count "
-                  "(line_and_column word kernel), encode/decode round trip (exhaustive over all code points in the thorough tier).",
+    "level_text": "Lean 4 theorems over models of all three engines, for every byte string: validate_utf8_scalar (with the "
+                  "skip_ascii word loop), broadword::accepts (load_block/load_word/first_high_byte/validate_sequence) and the "
+                  "AVX2 accept kernel (lane predicate of check_block over c/prev1/prev2/prev3 on the zero-padded input incl. "
+                  "the always-run tail block) accept exactly the language of the Unicode Table 3-7 automaton (scalar_ok_iff, "
+                  "broadword_accept_iff, avx2_accept_iff), hence all engines return the scalar validator's result "
+                  "(engines_agree); on rejection the kind is the first violated rule, offset = validPrefixLen + index of the "
+                  "offending continuation byte (error_kind_and_offset_partial, error_offset_validPrefixLen, "
+                  "validPrefixLen_spec), line/column = LF line/column of that offset through the 8-byte newline kernel "
+                  "(error_linecol, line_and_column_eq); encode/decode round trips for every scalar value (decode_encode, "
+                  "encode_decode, encode_none_iff_not_scalar). The property's 'offset = longest valid prefix' holds for five "
+                  "kinds (error_offset_partial) and is refuted for InvalidContinuationByte (error_offset_refuted, finding F6, "
+                  "[C3 28]).",
     "level_note": "Trusts Lean kernel + bv_decide certificate checker (word/lane lemmas in Proof/Utf8*.lean), the rs2lean "
                   "translation of the word kernels cut from the source, the lane semantics of the AVX2 intrinsics "
                   "(alignr/permute2x128 as 'previous N bytes'; hand-written lane expression of check_block, tied by "
@@ -91,8 +93,11 @@ CFG = {
     "lean_files": ["SuccinctlyVerif/Props/C13.lean", "SuccinctlyVerif/Proof/Utf8.lean", "SuccinctlyVerif/Proof/Utf8Engines.lean",
                    "SuccinctlyVerif/Proof/Utf8Scalar.lean", "SuccinctlyVerif/Proof/Utf8ScalarMain.lean",
                    "SuccinctlyVerif/Proof/Utf8Avx2.lean", "SuccinctlyVerif/Proof/Utf8Codec.lean",
+                   "SuccinctlyVerif/Proof/Utf8Broadword.lean", "SuccinctlyVerif/Proof/Utf8BroadwordMain.lean",
+                   "SuccinctlyVerif/Proof/Utf8Prefix.lean", "SuccinctlyVerif/Proof/Utf8LineCol.lean",
+                   "SuccinctlyVerif/Proof/Utf8RoundTrip.lean",
                    "SuccinctlyVerif/Model/Utf8.lean", "SuccinctlyVerif/Spec/Utf8.lean"],
-    "required_theorems": ["SV.Props.C13.scalar_ok_iff", "SV.Props.C13.avx2_accept_iff", "SV.Props.C13.simd_engine_agrees",
+    "required_theorems": ["SV.Props.C13.scalar_ok_iff", "SV.Props.C13.avx2_accept_iff", "SV.Props.C13.simd_engine_agrees", "SV.Props.C13.broadword_accept_iff", "SV.Props.C13.engines_agree", "SV.Props.C13.validPrefixLen_spec", "SV.Props.C13.error_linecol", "SV.Props.C13.decode_encode", "SV.Props.C13.encode_decode",
                           "SV.Props.C13.error_kind_and_offset_partial", "SV.Props.C13.error_offset_refuted"],
     "generated": ["C13:"],
     "allow_bv_decide": True,
